@@ -861,6 +861,10 @@ func (e *Executor) Execute(ctx context.Context, m File) (err error) {
 			}
 		}
 	}
+	// The pending part of a partially applied file may have been edited and the
+	// number of statements may differ from the last attempt. Keep the total in
+	// sync, otherwise a failure of this attempt may leave Applied == Total.
+	r.Total = len(stmts)
 	e.log.Log(LogFile{m, r.Version, r.Description, r.Applied})
 	if err := e.fileChecks(ctx, m, r); err != nil {
 		e.log.Log(LogError{Error: err})
